@@ -386,12 +386,16 @@ def _r_drv(ck, world, table) -> None:
             ck.expect('R-DRV', good_ops, fn, 'every operand is reduced, in order, before the chain rules are applied to the list',
                       f'CompositionOperator.reduce does not reduce each operand in order before the chain scan: operands = {show(ops_t)}', instance='operands reduced first')
         rt = term(p.node.value, e)
+        from ..terms import facts as _facts
+
+        pf = _facts(p)
         fs_txt = ' and '.join(ast.unparse(ev[1]) + ('' if ev[2] else ' [false]') for ev in p.events if ev[0] == 'cond')
+        len_ops = ('call', ('var', 'len'), (ops_t,), ())
         if rt[0] == 'call' and rt[1] == ('var', 'IdentityOperator'):
-            ck.expect('R-DRV', rt[2] == (('IN', S),) and 'len(operands) == 0' in fs_txt and '[false]' not in fs_txt.split('len(operands) == 0')[0][-1:], fn,
+            ck.expect('R-DRV', rt[2] == (('IN', S),) and ('eq', frozenset({len_ops, ('const', '0')})) in pf, fn,
                       'empty chain -> IdentityOperator(self.in_structure())', f'empty chain returns {show(rt)} under ({fs_txt})', instance='empty chain')
         elif rt == ('sub', ops_t, ('const', '0')):
-            ck.expect('R-DRV', 'len(operands) == 1' in fs_txt, fn, 'one operand left -> that operand', f'returns operands[0] under ({fs_txt})', instance='single operand')
+            ck.expect('R-DRV', ('eq', frozenset({len_ops, ('const', '1')})) in pf, fn, 'one operand left -> that operand', f'returns operands[0] under ({fs_txt})', instance='single operand')
         elif rt[0] == 'call' and rt[1] == ('var', 'CompositionOperator'):
             ck.expect('R-DRV', rt[2] == (ops_t,), fn, 'n operands -> CompositionOperator(operands) in the order returned by the driver',
                       f'returns {show(rt)}', instance='n operands')
@@ -652,8 +656,12 @@ def _maps_reduce(t, S) -> bool:
 
 
 def _is_single_leaf(rt, S, p) -> bool:
-    txt = ' '.join(ast.unparse(ev[1]) for ev in p.events if ev[0] == 'cond' and ev[2])
-    return rt[0] == 'sub' and rt[2] == ('const', '0') and '== 1' in txt and 'len(' in txt
+    from ..terms import facts as _facts
+
+    if not (rt[0] == 'sub' and rt[2] == ('const', '0')):
+        return False
+    want = ('call', ('var', 'len'), (rt[1],), ())
+    return ('eq', frozenset({want, ('const', '1')})) in _facts(p)
 
 
 def _element_of_container(rt, S, env) -> bool:
